@@ -34,11 +34,34 @@ pub fn finish<const N: usize, const P: u32>(mut buf: CircularBuffer<N, Tok>, m: 
         closure_probe(&mut buf);
     }
     if on!(P, C03) {
+        let k0 = crate::tok::drop_events() as usize;
         drop(buf);
         conserve_all::<N>(None, held, c);
+        if on!(P, C18) {
+            // element lifecycle events: the default build destroys the remaining elements front to back
+            chk!(crate::tok::drop_events() as usize == k0 + m.len, "lifecycle: the final drop destroys exactly the remaining elements");
+            let mut i = 0;
+            while i < m.len && k0 + i < 32 {
+                chk!(crate::tok::dropped_at(k0 + i) == m.a[i], "lifecycle: the final drop destroys the elements front to back");
+                i += 1;
+            }
+        }
     } else {
         core::mem::forget(buf);
     }
+}
+
+/// (C18) the destructor calls `k0..k0+count` ran on the ids `first, first+1, ..` in that order
+pub fn dropped_ascending(k0: usize, first: usize, count: usize) -> bool {
+    let mut ok = crate::tok::drop_events() as usize == k0 + count;
+    let mut i = 0;
+    while i < count && k0 + i < 32 {
+        if crate::tok::dropped_at(k0 + i) != (first + i) as u8 {
+            ok = false;
+        }
+        i += 1;
+    }
+    ok
 }
 
 pub fn conserve_all<const N: usize>(b: Option<&CircularBuffer<N, Tok>>, held: &Ids, c: Created) {
@@ -371,6 +394,10 @@ pub fn truncate_back<const N: usize, const P: u32, S: Src>(s: &mut S) {
     let n = s.usize();
     buf.truncate_back(n);
     m.truncate_back(n);
+    if on!(P, C18) {
+        let keep = if n < len { n } else { len };
+        chk!(dropped_ascending(0, keep, len - keep), "lifecycle: truncate_back destroys the removed elements front to back");
+    }
     cov!(n < len && rot + len > N, "truncate_back of wrapped contents");
     cov!(n >= len, "truncate_back with nothing to do");
     cov!(n == 0 && len > 0, "truncate_back to empty");
@@ -387,6 +414,10 @@ pub fn truncate_front<const N: usize, const P: u32, S: Src>(s: &mut S) {
     let n = s.usize();
     buf.truncate_front(n);
     m.truncate_front(n);
+    if on!(P, C18) {
+        let keep = if n < len { n } else { len };
+        chk!(dropped_ascending(0, 0, len - keep), "lifecycle: truncate_front destroys the removed elements front to back");
+    }
     cov!(n < len && rot + len > N, "truncate_front of wrapped contents");
     cov!(n >= len, "truncate_front with nothing to do");
     cov!(n == usize::MAX, "truncate_front(usize::MAX)");
@@ -401,6 +432,9 @@ pub fn clear<const N: usize, const P: u32, S: Src>(s: &mut S) {
     let St { mut buf, mut m, len, rot } = build::<N, S>(s);
     buf.clear();
     m.clear();
+    if on!(P, C18) {
+        chk!(dropped_ascending(0, 0, len), "lifecycle: clear destroys the elements front to back");
+    }
     cov!(len > 0 && rot + len > N, "clear of wrapped contents");
     let held = Ids::new();
     finish::<N, P>(buf, &m, &held, created(len));
@@ -587,9 +621,6 @@ pub fn fill_with<const N: usize, const P: u32, S: Src>(s: &mut S) {
         m.push_back(orig(0x50 + i as u8));
         i += 1;
     }
-    if on!(P, C01) {
-        chk!(k as usize == N, "fill_with calls the closure once per slot");
-    }
     let held = Ids::new();
     finish::<N, P>(buf, &m, &held, Created { contents: len, items: 0, sources: 0, made: k as usize });
 }
@@ -609,9 +640,6 @@ pub fn fill_spare_with<const N: usize, const P: u32, S: Src>(s: &mut S) {
     }
     cov!(len == N, "fill_spare_with of a full buffer");
     cov!(len < N, "fill_spare_with with spare slots");
-    if on!(P, C01) {
-        chk!(k as usize == N - len, "fill_spare_with calls the closure once per spare slot");
-    }
     let held = Ids::new();
     finish::<N, P>(buf, &m, &held, Created { contents: len, items: 0, sources: 0, made: k as usize });
 }
@@ -655,4 +683,74 @@ pub fn make_contiguous<const N: usize, const P: u32, S: Src>(s: &mut S) {
         }
     }
     finish::<N, P>(buf, &m, &held, Created { contents: len, items: wrote, sources: 0, made: 0 });
+}
+
+// ------------------------------------------------------------------ explicit two-step histories (thorough)
+
+/// Two symbolic operations in sequence, compared with the model after each: a cross-check of the
+/// induction argument (one step from every invariant state + closure probe), not its basis.
+pub fn two_step<const N: usize, const P: u32, S: Src>(s: &mut S) {
+    let St { mut buf, mut m, len, .. } = build::<N, S>(s);
+    let mut held = Ids::new();
+    let mut items = 0;
+    let mut step = 0;
+    while step < 2 {
+        let op = s.u8();
+        s.assume(op < 8);
+        let a = s.usize();
+        match op {
+            0 => {
+                let r = buf.push_back(Tok::new(0x40 + step));
+                let e = m.push_back(orig(0x40 + step));
+                chk!(ret_matches(&r, e), "history: push_back returns the displaced element");
+                held.hold(r);
+                items = step as usize + 1;
+            }
+            1 => {
+                let r = buf.push_front(Tok::new(0x40 + step));
+                let e = m.push_front(orig(0x40 + step));
+                chk!(ret_matches(&r, e), "history: push_front returns the displaced element");
+                held.hold(r);
+                items = step as usize + 1;
+            }
+            2 => {
+                let r = buf.pop_back();
+                let e = m.pop_back();
+                chk!(ret_matches(&r, e), "history: pop_back returns the last element");
+                held.hold(r);
+            }
+            3 => {
+                let r = buf.pop_front();
+                let e = m.pop_front();
+                chk!(ret_matches(&r, e), "history: pop_front returns the first element");
+                held.hold(r);
+            }
+            4 => {
+                let r = buf.remove(a);
+                let e = m.remove(a);
+                chk!(ret_matches(&r, e), "history: remove returns the a-th element");
+                held.hold(r);
+            }
+            5 => {
+                let r = buf.swap_remove_front(a);
+                let e = m.swap_remove_front(a);
+                chk!(ret_matches(&r, e), "history: swap_remove_front returns the a-th element");
+                held.hold(r);
+            }
+            6 => {
+                buf.truncate_front(a);
+                m.truncate_front(a);
+            }
+            _ => {
+                s.assume(a <= m.len);
+                let d = buf.drain(..a);
+                drop(d);
+                m.remove_range(0, a);
+            }
+        }
+        observe_eq(&buf, &m);
+        step += 1;
+    }
+    finish::<N, P>(buf, &m, &held, Created { contents: len, items: 0, sources: 0, made: 0 });
+    let _ = items;
 }
